@@ -154,6 +154,7 @@ def r1(report, db, cg, M):
                     'frame bypasses the lock and the listeners'
                     % t.qualname)
     report.floor('call sites of Packet.write', n, 1)
+    fresh_frame_buffer(report, R, db, cg, pk)
     # two consecutive sends
     wb = db.own_method(pk, '_write_buffer')
     if wb is None:
@@ -195,6 +196,62 @@ def r1(report, db, cg, M):
                          wb.qualname, 'the frame is not emitted by exactly '
                          'two consecutive final statements on the socket '
                          '(statements %s of %d)' % (idx, len(wb.body)))
+
+
+def fresh_frame_buffer(report, R, db, cg, pk):
+    """Packet.write serialises into a buffer of its own: the buffer given to
+    the frame writer was created by this very call and is held by nothing
+    else -- or it is emptied before the first byte goes in.  A buffer that
+    outlives the call carries the bytes of a packet whose write failed into
+    the next frame."""
+    from .. import shared
+    from ..pathsum import struct, show
+    wr = db.own_method(pk, 'write')
+    wb = db.own_method(pk, '_write_buffer')
+    if wr is None or wb is None:
+        raise AnalysisError('Packet.write/_write_buffer vanished')
+    pbuf = db.get_class('minecraft.networking.packets.packet_buffer',
+                        'PacketBuffer')
+    S = shared.summariser(db, cg, opaque=[wb], implicit_raises=False)
+    n = 0
+    for p in S.run(wr):
+        evs = p.flat(('call', 'store', 'setitem'))
+        frames = [e for e in evs if e.kind == 'call' and e.calls(wb)]
+        for e in frames:
+            n += 1
+            names = list(wb.params)
+            args = list(e.args)
+            if len(args) == len(names) - 1:
+                names = names[1:]
+            bound = dict(zip(names, args))
+            bound.update(dict(e.kwargs))
+            buf = bound.get('packet_buffer')
+            if buf is None:
+                raise AnalysisError('_write_buffer call without a buffer',
+                                    e.node, rel(wr.path))
+            held = [x for x in evs if x.kind in ('store', 'setitem')
+                    and x.value == buf]
+            own = buf[0] == 'obj' and buf[3] is pbuf and not held
+            first = next((x for x in evs if x.kind == 'call' and (
+                x.fn[0] == 'attr' and x.fn[1] == buf or
+                x.fn[0] == 'fn' and len(x.fn) > 2 and x.fn[2] == buf or
+                buf in (x.args or ()))), None)
+            emptied = first is not None and first.method() == 'reset' and \
+                (first.fn[1] if first.fn[0] == 'attr' else first.fn[2]) == buf
+            if own or emptied:
+                report.ok(R, 'Packet.write: frame built in %s' % (
+                    'a buffer of its own' if own else 'a buffer emptied '
+                    'first'))
+            else:
+                report.violation(
+                    R, 'frame:shared-buffer', wr.path, e.node, wr.qualname,
+                    'the frame is built in %s, which outlives the call%s: '
+                    'after a write that failed part-way the next frame '
+                    'starts with the leftover bytes' % (
+                        show(buf)[:60], ' (it is also stored in %s)' % (
+                            show(held[0].base)[:40] if held else '')
+                        if held else ''))
+    report.floor('frame-writer calls in Packet.write', n, 1)
 
 
 def wrapper_installed(fi, call, par, M):
